@@ -473,6 +473,11 @@ class HyReader(Reader):
         in_named_escape = False
         for c in self.chars():
             s.append(c)
+            if in_named_escape and c == "}":
+                # the end of "\N{...}", which can't end the string
+                # (or a format spec)
+                in_named_escape = False
+                continue
             # check if c is closing
             n_closing_chars = closing(c)
             if n_closing_chars:
@@ -495,9 +500,7 @@ class HyReader(Reader):
                         s.pop()
                         break
                 elif c == "}":
-                    if in_named_escape:
-                        in_named_escape = False
-                    elif not self.peek_and_getc("}"):
+                    if not self.peek_and_getc("}"):
                         if not self.peekc():
                             raise PrematureEndOfInput.from_reader(
                                 f"Premature end of input in {fstring_mode}-string", self)
